@@ -484,16 +484,17 @@ func ruleServerClose(c *Check, a *Analysis, rule string) {
 			nReg++
 			codecArg := serve.Common().Args[1]
 			registered := false
-			eachInstr(fn, func(in ssa.Instruction) {
+			eachInstrCtx(fn, func(in, at ssa.Instruction, res func(ssa.Value) ssa.Value) {
 				mu, ok := in.(*ssa.MapUpdate)
-				if !ok || !p.dominatesInstr(in, serve) {
+				if !ok || !p.dominatesInstr(at, serve) {
 					return
 				}
-				if p.canon(mu.Key) != p.canon(unwrap(codecArg)) && unwrap(p.canon(mu.Key)) != unwrap(p.canon(codecArg)) {
+				key := res(mu.Key)
+				if p.canon(key) != p.canon(unwrap(codecArg)) && unwrap(p.canon(key)) != unwrap(p.canon(codecArg)) {
 					return
 				}
 				// the local per-listener table is a captured cell of listen
-				if cell := p.localCellOfMap(mu.Map); cell != nil && cell.Parent() == lis {
+				if cell := p.localCellOfMap(res(mu.Map)); cell != nil && cell.Parent() == lis {
 					registered = held(ls, in, "Server.mutex")
 				}
 			})
@@ -536,15 +537,32 @@ func ruleServerClose(c *Check, a *Analysis, rule string) {
 		if !ok {
 			return
 		}
-		mc, ok := d.Call.Value.(*ssa.MakeClosure)
-		if !ok {
+		var cl *ssa.Function
+		resArg := func(v ssa.Value) ssa.Value { return v }
+		if mc, ok := d.Call.Value.(*ssa.MakeClosure); ok {
+			cl = mc.Fn.(*ssa.Function)
+		} else if h := d.Common().StaticCallee(); h != nil && p.isPlainHelper(h) {
+			// `defer server.closeAccepted(codecs)`: the helper plays the closure's part
+			cl = h
+			args := d.Common().Args
+			resArg = func(v ssa.Value) ssa.Value {
+				if prm, ok := v.(*ssa.Parameter); ok && prm.Parent() == h {
+					for i, q := range h.Params {
+						if q == prm && i < len(args) {
+							return args[i]
+						}
+					}
+				}
+				return v
+			}
+		}
+		if cl == nil {
 			return
 		}
-		cl := mc.Fn.(*ssa.Function)
 		hasRange, hasClose := false, false
 		eachInstr(cl, func(x ssa.Instruction) {
 			if r, ok := x.(*ssa.Range); ok {
-				if cell := p.localCellOfMap(r.X); cell != nil && cell.Parent() == lis {
+				if cell := p.localCellOfMap(resArg(r.X)); cell != nil && cell.Parent() == lis {
 					hasRange = true
 				}
 			}
